@@ -291,7 +291,8 @@ pub fn sweep(env: &Arc<Env>, check: &Arc<dyn Check>, tier: Tier, lo: u64, n: u64
                         if i >= n {
                             break;
                         }
-                        let scn = check.generate(seed, lo + i, tier);
+                        let mut scn = check.generate(seed, lo + i, tier);
+                        crate::gen::fix_point_goals(&mut scn);
                         let t = Instant::now();
                         let mut rep = {
                             let _g = watch(&scn);
